@@ -158,14 +158,16 @@ def r3_polarity(ctx):
     good = False
     if loops:
         lp = loops[0]
+        pm = astx.parents(f.node)
+        N = Normalizer(f.node, rename=_tally_rename(f.node), inline=False)
         it = astx.unique_def(f.node, lp.iter.id) if isinstance(lp.iter, ast.Name) else lp.iter
-        ifs = [s_ for s_ in lp.body if isinstance(s_, ast.If)]
-        if it is not None and astx.u(it).endswith(".remaining") and len(ifs) == 1 and ifs[0].orelse:
-            branches = [ifs[0].body, ifs[0].orelse]
-            brk = [b for b in branches if any(isinstance(x, ast.Break) for x in b)]
-            app = [b for b in branches if any(isinstance(x, ast.Expr) and isinstance(x.value, ast.Call) and astx.call_name(x.value) == "append"
-                                              and astx.is_name(x.value.args[0], lp.target.id) for x in b)]
-            good = len(brk) == 1 and len(app) == 1 and brk[0] is not app[0]
+        brks = [x for x in ast.walk(lp) if isinstance(x, ast.Break) and astx.enclosing(x, pm, (ast.For, ast.While)) is lp]
+        apps = [x for x in ast.walk(lp) if isinstance(x, ast.Call) and astx.call_name(x) == "append" and x.args and isinstance(lp.target, ast.Name) and astx.is_name(x.args[0], lp.target.id)]
+        if it is not None and astx.u(it).endswith(".remaining") and len(brks) == 1 and len(apps) == 1:
+            # the loop stops exactly when a group is below the threshold, and every group it did not stop at is elected
+            lb = literals(N.conj(astx.path_condition(f.node, brks[0], pm, drop_stale=False)))
+            la = literals(N.conj(astx.path_condition(f.node, apps[0], pm, drop_stale=False)))
+            good = lb == {"not " + want} and la == {want}
     ctx.check(good, f, loops[0] if loops else f.node, "simultaneous step elects the above-threshold prefix of prev_state.remaining",
               "for s in remaining: if tally >= threshold: elected.append(s) else: break", "the loop electing above-threshold groups has changed shape")
 
